@@ -218,8 +218,8 @@ m("c16_file_sep_not_passed_on_write", "C16", API,
   "            writer = csv.writer(file_out, delimiter=\"\\t\" if delimiter == \"|\" else delimiter)\n            if _header:",
   "one custom separator is not honoured on rewrite")
 m("c16_pd_target_ignored_in_standardize_uri", "C16", API,
-  "        func = partial(self.standardize_uri, strict=strict, passthrough=passthrough)\n        df[column if target_column is None else target_column] = df[column].map(func)\n",
-  "        func = partial(self.standardize_uri, strict=strict, passthrough=passthrough)\n        df[column] = df[column].map(func)\n",
+  "        func = partial(self.standardize_uri, strict=strict, passthrough=passthrough)\n        df[column if target_column is None else target_column] = _get_cells(df, column).map(func)\n",
+  "        func = partial(self.standardize_uri, strict=strict, passthrough=passthrough)\n        df[column] = _get_cells(df, column).map(func)\n",
   "pd_standardize_uri ignores target_column")
 m("c16_pd_expand_strict_dropped", "C16", API,
   "        pre_func = self.expand_or_standardize if ambiguous else self.expand\n        func = partial(pre_func, strict=strict, passthrough=passthrough)  # type:ignore\n        df[",
